@@ -1,5 +1,14 @@
 """Single source of truth for MANIFEST.json (see tools_manifest.py)."""
 CHECKS = {
+    "C08": {
+        "text": "Symbolic execution of clip_segment/clip_code over eight unbounded reals: all feasible loop unrollings "
+                "(0-4 clips) are explored; on every path accept/reject, on-segment, orientation, inside and coverage are "
+                "proved by z3 nlsat (QF_NRA, fresh solver per query); a reachable division by zero or fail-safe exit "
+                "would surface as a satisfiable obligation. Counterexamples are replayed with exact Fractions.",
+        "note": "exact-real model of binary64 (tolerance of the statement is 0 here; rounding not analysed); xmin<=xmax, "
+                "ymin<=ymax assumed; at most 400 decisions per path (never hit)",
+        "technique": "symbolic execution of the Python source on z3 real terms + SMT (QF_NRA) obligations per path, counterexample replay",
+    },
     "C18": {
         "text": "Bounded-free symbolic execution of the four limit helpers over unbounded reals; every path's result, range "
                 "membership and flag are proved equal to the clamp/outlier specification by z3 (QF_LRA, unsat = holds for "
